@@ -210,4 +210,6 @@ def gen(r, focus, tier="quick"):
     scn = {"kind": "ex", "focus": focus, "cfg": cfg, "pipes": pipes, "knobs": knobs}
     if r.random() < 0.15:
         scn["decoy_at"] = r.randint(1, max(1, T // 2))
+    if r.random() < 0.25:
+        scn["observe"] = r.randint(0, 10 ** 9)       # a bystander reads public state between the ticks
     return scn
